@@ -1,75 +1,34 @@
-/* C28: zone allocator -- histories of K symbolic operations from zone_malloc_init.
+/* C28: zone allocator -- K symbolic operations from a REACHABLE zone state.
  *
- * Unit: the real parsec/utils/zone_malloc.c (included) with the real list.h, lifo.h and the real
- * object system (parsec_object.c, parsec_list.c, parsec_lifo.c linked).  The red-black tree is
- * replaced by a FUNCTIONAL MODEL (unordered array of node pointers) that implements exactly the
- * contract C36 establishes for the real parsec_rbtree.c: insert adds an absent node with an absent
- * key, remove deletes a member, find / find_or_larger answer like the sorted key set, update_node
- * returns PARSEC_ERR_EXISTS iff another node carries the key (then changes nothing) and otherwise
- * stores the key.  The model also CHECKS that zone_malloc.c respects the tree's caller contract.
+ * Unit: the real parsec/utils/zone_malloc.c (included) with the real list.h and the real object
+ * system (parsec_object.c, parsec_list.c linked); the LIFO of retired index nodes is the sequential
+ * model of lifomodel.h (see there).  The red-black tree is
+ * replaced by the functional model of rbmodel.h (= the contract C36 establishes for the real
+ * parsec_rbtree.c; the model also CHECKS that zone_malloc.c respects the tree's caller contract).
+ *
+ * Start state: zone_malloc_init, followed by a CONCRETE prefix executed by the real code (symbolic
+ * execution folds it to constants): the zone is filled with NSEG allocations of SEGSZ[i] units and
+ * those with SEGFULL[i]==0 are freed again (FORDER: in increasing / decreasing address order), which
+ * reaches the segment layout chosen by spec.py (every layout of U units without two adjacent free
+ * segments is enumerated there).  Then K operations are SYMBOLIC: zone_malloc of any byte size
+ * 0..(U+1)*UNIT or zone_free of any live block.
+ * Why not a fully symbolic (inductive) pre-state as for C36/C31: list code reaches the segments as
+ * parsec_list_item_t* pointing INTO the segment_t array; with a symbolic table every such access
+ * becomes a byte_update of the whole array at a symbolic offset (measured: out of memory at 8 GB for
+ * 3 units, harness zi.c kept for reference).
  *
  * Oracle: a ghost unit map (owner[u] = id of the live allocation covering unit u, 0 = free).
+ * malloc stub: zone_malloc_init / PARSEC_OBJ_NEW get STATIC TYPED objects (zone header, segment
+ * table, chunk-list nodes); the object system's own tables come from calloc.
  */
 #include "vp_harness.h"
-#include "parsec/parsec_config.h"
-#include "parsec/constants.h"
-#include "parsec/class/parsec_rbtree.h"
-
-/* ---------------- functional model of parsec_rbtree.c ---------------- */
-#ifndef MAXNODES
-#define MAXNODES 6
-#endif
-static parsec_rbtree_node_t *RBM[MAXNODES]; static int rbn; static int rb_contract_broken, rb_overflow;
-static inline void parsec_rbtree_node_construct(parsec_rbtree_node_t *item) { item->color = PARSEC_RBTREE_BLACK; }
-PARSEC_OBJ_CLASS_INSTANCE(parsec_rbtree_node_t, parsec_list_item_t, parsec_rbtree_node_construct, NULL);
-#define RBKEY(t, n) COMPARISON_VAL((n), (t)->comp_offset)
-static void rb_setroot(parsec_rbtree_t *t) { t->root = rbn > 0 ? RBM[0] : t->nil; }
-void parsec_rbtree_init(parsec_rbtree_t *t, size_t off)
-{ t->nil = &t->nil_element; t->nil_element.color = PARSEC_RBTREE_BLACK; t->comp_offset = off; rbn = 0; rb_setroot(t); }
-void parsec_rbtree_fini(parsec_rbtree_t *t) { t->nil = NULL; t->root = NULL; t->comp_offset = 0; }
-void parsec_rbtree_insert(parsec_rbtree_t *t, parsec_rbtree_node_t *node)
-{
-    for (int i = 0; i < MAXNODES; i++) if (i < rbn && (RBM[i] == node || RBKEY(t, RBM[i]) == RBKEY(t, node))) rb_contract_broken = 1;
-    if (rbn >= MAXNODES) { rb_overflow = 1; return; }
-    RBM[rbn++] = node; rb_setroot(t);
-}
-void parsec_rbtree_remove(parsec_rbtree_t *t, parsec_rbtree_node_t *z)
-{
-    int at = -1;
-    for (int i = 0; i < MAXNODES; i++) if (i < rbn && RBM[i] == z) at = i;
-    if (at < 0) { rb_contract_broken = 1; return; }
-    for (int i = 0; i + 1 < MAXNODES; i++) if (i >= at && i + 1 < rbn) RBM[i] = RBM[i + 1];
-    rbn--; rb_setroot(t);
-}
-parsec_rbtree_node_t *parsec_rbtree_find(parsec_rbtree_t *t, int data)
-{
-    for (int i = 0; i < MAXNODES; i++) if (i < rbn && RBKEY(t, RBM[i]) == data) return RBM[i];
-    return NULL;
-}
-parsec_rbtree_node_t *parsec_rbtree_find_or_larger(parsec_rbtree_t *t, int data)
-{
-    parsec_rbtree_node_t *best = NULL;
-    for (int i = 0; i < MAXNODES; i++) if (i < rbn && RBKEY(t, RBM[i]) >= data && (best == NULL || RBKEY(t, RBM[i]) < RBKEY(t, best))) best = RBM[i];
-    return best;
-}
-int parsec_rbtree_update_node(parsec_rbtree_t *t, parsec_rbtree_node_t *node, int newdata)
-{
-    int member = 0;
-    for (int i = 0; i < MAXNODES; i++) if (i < rbn && RBM[i] == node) member = 1;
-    if (!member) rb_contract_broken = 1;
-    for (int i = 0; i < MAXNODES; i++) if (i < rbn && RBM[i] != node && RBKEY(t, RBM[i]) == newdata) return PARSEC_ERR_EXISTS;
-    RBKEY(t, node) = newdata;
-    return PARSEC_SUCCESS;
-}
-parsec_rbtree_node_t *parsec_rbtree_minimum(parsec_rbtree_t *t, parsec_rbtree_node_t *x) { (void)t; return x; }
-void parsec_rbtree_foreach(parsec_rbtree_t *t, parsec_rbtree_visitor_cb *fn, void *cb)
-{ for (int i = 0; i < MAXNODES; i++) if (i < rbn) fn(RBM[i], cb); (void)t; }
-
-/* debug output used by zone_debug only (macro -> parsec_output_verbose): empty stub */
-int parsec_debug_verbose, parsec_debug_rank, parsec_debug_colorize;
-void parsec_output_verbose(int level, int id, const char *fmt, ...) { (void)level; (void)id; (void)fmt; }
-
+#include <stdlib.h>
+static void *vp_malloc(size_t n);
+#define malloc(n) vp_malloc(n)
+#include "lifomodel.h"
+#include "rbmodel.h"
 #include "parsec/utils/zone_malloc.c"
+#undef malloc
 
 /* ---------------- harness ---------------- */
 #ifndef U
@@ -83,7 +42,20 @@ void parsec_output_verbose(int level, int id, const char *fmt, ...) { (void)leve
 #endif
 static char ARENA[U * UNIT + UNIT];
 static int owner[U];             /* ghost: 0 = free, id = live allocation */
-static int live_tid[K + 1], live_nb[K + 1], live_on[K + 1];
+static zone_malloc_t ZS; static segment_t SEGS[U];
+static zone_malloc_chunk_list_t CLS0, CLS1, CLS2, CLS3, CLS4, CLS5;
+static int n_z, n_seg, n_cl, malloc_bad;
+static void *vp_malloc(size_t n)
+{
+    if (n == sizeof(zone_malloc_t)) { if (n_z++) malloc_bad = 1; return (void*)&ZS; }
+    if (n == sizeof(segment_t) * U) { if (n_seg++) malloc_bad = 1; return (void*)SEGS; }
+    if (n == sizeof(zone_malloc_chunk_list_t)) {
+        int k = n_cl++;
+        if (k > 5) malloc_bad = 1;
+        return (void*)(k==0?&CLS0:k==1?&CLS1:k==2?&CLS2:k==3?&CLS3:k==4?&CLS4:&CLS5);
+    }
+    return calloc(1, n);
+}
 
 /* longest-run helpers on the ghost map */
 static int run_len_at(int tid) { int l = 0; for (int u = 0; u < U; u++) if (u >= tid) { if (owner[u] != 0) break; l++; } return l; }
@@ -144,9 +116,31 @@ int main(void)
     VASSERTM(z != NULL, "init succeeds");
     VASSERTM(check_zone(z), "init: one free segment covering the zone, indexed under its size");
     VASSERTM(zone_in_use(z) == 0, "init: nothing in use");
-    int nmalloc_ok = 0, nfree = 0, nfail = 0, nsplit = 0, nmerge = 0;
+#ifdef NSEG
+    {   /* concrete prefix: reach the layout chosen by spec.py with the real code */
+        static const int segsz[NSEG] = { SEGSZ }, segfull[NSEG] = { SEGFULL };
+        char *pp[NSEG]; int t = 0;
+        for (int i = 0; i < NSEG; i++) {
+            pp[i] = (char*)zone_malloc(z, (size_t)segsz[i] * UNIT);
+            VASSERTM(pp[i] == ARENA + (long)t * UNIT, "prefix: sequential allocations are contiguous");
+            for (int u = 0; u < U; u++) if (u >= t && u < t + segsz[i]) owner[u] = i + 1;
+            t += segsz[i];
+        }
+        for (int j = 0; j < NSEG; j++) {
+            int i = FORDER ? NSEG - 1 - j : j;
+            if (!segfull[i]) { zone_free(z, pp[i]); for (int u = 0; u < U; u++) if (owner[u] == i + 1) owner[u] = 0; }
+        }
+        VASSERTM(check_zone(z), "prefix: the reached state satisfies the invariant");
+    }
+#endif
+    int nmalloc_ok = 0, nfree = 0, nfail = 0, nsplit = 0, nmerge = 0, nexact = 0, nmerge2 = 0;
     for (int step = 0; step < K; step++) {
+#ifdef OPSEQ
+        static const int opseq[K] = { OPSEQ };      /* operation kinds enumerated by spec.py: 0 = malloc, 1 = free */
+        int do_free = opseq[step];
+#else
         int do_free = IN_BOOL();
+#endif
         if (!do_free) {
             int size = IN_RANGE(0, (U + 1) * UNIT);
             int nb = (size + UNIT - 1) / UNIT;
@@ -162,21 +156,26 @@ int main(void)
                 VASSERTM(nb > 0 && fits, "malloc: succeeds only if a free run of enough units exists");
                 VASSERTM(off >= 0 && off % UNIT == 0 && off / UNIT + nb <= U, "malloc: address inside the zone and unit aligned");
                 int tid = (int)(off / UNIT);
+                VASSUME(tid >= 0 && tid < U);       /* established by the assertion above */
                 int clash = 0; for (int u = 0; u < U; u++) if (u >= tid && u < tid + nb && owner[u] != 0) clash = 1;
                 VASSERTM(!clash, "malloc: does not overlap a live allocation");
                 VASSERTM(is_run_start(tid) && run_len_at(tid) == best, "malloc: best fit -- carved from the start of a smallest free run that fits");
-                if (run_len_at(tid) > nb) nsplit++;
-                for (int u = 0; u < U; u++) if (u >= tid && u < tid + nb) owner[u] = step + 1;
-                live_tid[step] = tid; live_nb[step] = nb; live_on[step] = 1; nmalloc_ok++;
+                if (run_len_at(tid) > nb) nsplit++; else nexact++;
+                for (int u = 0; u < U; u++) if (u >= tid && u < tid + nb) owner[u] = 100 + step;
+                nmalloc_ok++;
             }
         } else {
-            int which = IN_RANGE(0, K - 1);
-            VASSUME(which < step && live_on[which]);       /* contract: free a live block, once */
-            int tid = live_tid[which], nb = live_nb[which];
-            if ((tid > 0 && owner[tid - 1] == 0) || (tid + nb < U && owner[tid + nb] == 0)) nmerge++;
+            int tid = IN_RANGE(0, U - 1);
+            /* contract: the address of a live allocation (its first unit) */
+            VASSUME(owner[tid] != 0 && (tid == 0 || owner[tid - 1] != owner[tid]));
+            int id = owner[tid], nb = 0;
+            for (int u = 0; u < U; u++) if (owner[u] == id) nb++;
+            int mp = (tid > 0 && owner[tid - 1] == 0), mn = (tid + nb < U && owner[tid + nb] == 0);
+            if (mp || mn) nmerge++;
+            if (mp && mn) nmerge2++;
             zone_free(z, ARENA + (long)tid * UNIT);
-            for (int u = 0; u < U; u++) if (u >= tid && u < tid + nb) owner[u] = 0;
-            live_on[which] = 0; nfree++;
+            for (int u = 0; u < U; u++) if (owner[u] == id) owner[u] = 0;
+            nfree++;
         }
         VASSERTM(check_zone(z), "after each operation: segment table = ghost map, no two adjacent free segments, back pointers right, free-size index exact");
         { size_t used = 0; for (int u = 0; u < U; u++) if (owner[u] != 0) used += UNIT;
@@ -184,9 +183,25 @@ int main(void)
         VASSERTM(z->lock == PARSEC_ATOMIC_UNLOCKED, "zone lock released");
     }
     VASSERTM(!rb_contract_broken, "zone_malloc.c respects the red-black tree's caller contract (insert absent node+key, remove/update members)");
-    VASSERTM(!rb_overflow, "harness: tree model capacity sufficient");
-    if (nmalloc_ok == K && nsplit >= 1) VWITNESS("two allocations, at least one split");
-    if (nfree >= 1 && nmerge >= 1) VWITNESS("a free that merges with a free neighbour");
-    if (nfail >= 1 && nmalloc_ok >= 1) VWITNESS("an allocation fails for lack of space after a successful one");
+    VASSERTM(!rb_overflow && !malloc_bad, "harness: tree model / malloc stub capacity sufficient");
+#if defined(W_SPLIT)
+    if (nsplit >= 1) VWITNESS("an allocation that splits a free segment");
+#endif
+#if defined(W_EXACT)
+    if (nexact >= 1) VWITNESS("an exact-fit allocation");
+#endif
+#if defined(W_FAIL)
+    if (nfail >= 1) VWITNESS("an allocation that fails");
+#endif
+#if defined(W_MERGE)
+    if (nmerge >= 1) VWITNESS("a free that merges with a free neighbour");
+#endif
+#if defined(W_MERGE2)
+    if (nmerge2 >= 1) VWITNESS("a free that merges with both neighbours");
+#endif
+#if defined(W_FREE)
+    if (nfree >= 1) VWITNESS("a free");
+#endif
+    if (nmalloc_ok + nfree + nfail == K) VWITNESS("K operations executed");
     return 0;
 }
